@@ -116,6 +116,11 @@ func computeWorkers(concurrent bool, evals int) int {
 	if nWorkers > evals {
 		nWorkers = evals
 	}
+	if nWorkers < 1 {
+		// A stencil that holds only the origin needs no evaluation
+		// away from it; without a worker the concurrent paths block.
+		nWorkers = 1
+	}
 	return nWorkers
 }
 
